@@ -503,6 +503,21 @@ def main():
         raise ValueError("timestamp regex not found")
     g.attempt("stripPattern", r"[ ]{0,}\[[0-9-:. ]+\] (.+)$", strip_pattern)
 
+    def single_line_stripped():
+        fn = find_func(hsm, "stripped")
+        src = unparse(fn)
+        need = ["targets = log.splitlines()", "if len(targets) > 1:", "target_item = target_item.strip()",
+                "if len(target_item) != 0:"]
+        miss = [x for x in need if x not in src]
+        if miss:
+            raise ValueError("stripped() changed: missing %s" % miss[:2])
+        if "target = log.strip()" in src:
+            return True
+        if "target = log\n" in src + "\n":
+            return False
+        raise ValueError("unrecognised single-line branch of stripped()")
+    g.attempt("singleLineStripped", True, single_line_stripped)
+
     # ---- emit -------------------------------------------------------------
     v = g.values
     def b(x):
@@ -532,7 +547,7 @@ def main():
                      v["fab.feOrder"], v["fab.lifoDeliver"], b(v["fab.startKeepsHandles"]), b(v["fab.clearInPlace"]),
                      b(v["fab.subscribeKeepsOthers"])))
     lines.append("def fifoDeliverPlain : Bool := " + b(v["fab.fifoDeliverPlain"]))
-    for k in ("singletonLocked", "registryLocked", "tsaFlagPerThread", "tsaPerInstance", "tsaProtocol"):
+    for k in ("singletonLocked", "registryLocked", "tsaFlagPerThread", "tsaPerInstance", "tsaProtocol", "singleLineStripped"):
         lines.append("def %s : Bool := %s" % (k, b(v[k])))
     for k in ("notAtomicPattern", "lockRequestPattern", "stripPattern"):
         lines.append("def %s : String := %s" % (k, lean_str(v[k])))
